@@ -113,7 +113,7 @@ pub struct Verdicts {
     pub probes: BTreeMap<&'static str, u64>,
 }
 
-pub fn examine(seed: u64, idx: u64, s: &dyn SuiteOps) -> Verdicts {
+pub fn examine(seed: u64, idx: u64, s: &dyn SuiteOps, byte_cuts: usize) -> Verdicts {
     let mut out = Verdicts { v: vec![], evals: 0, steps: 0, stats: Stats::default(), shapes: vec![], probes: BTreeMap::new() };
     let w = base_world(seed, idx, s);
     let r = run_world(&w);
@@ -165,12 +165,28 @@ pub fn examine(seed: u64, idx: u64, s: &dyn SuiteOps) -> Verdicts {
         }
         let mine: Vec<(String, Vec<u8>)> = ra.iter().filter(|x| x.0 == i).map(|x| (x.1.clone(), x.2.clone())).collect();
         let mut prev_equal: Option<Vec<bool>> = None;
-        for k in 0..=draws.len() {
-            let prefix: Vec<u8> = draws[..k].iter().flatten().copied().collect();
+        // cut positions in BYTES: every draw boundary plus seeded cuts inside draws
+        let flat: Vec<u8> = draws.iter().flatten().copied().collect();
+        let mut cuts: Vec<usize> = vec![0];
+        let mut acc = 0;
+        for d in &draws {
+            acc += d.len();
+            cuts.push(acc);
+        }
+        let mut gc = Gen::new(seed, &format!("c17/cuts/{}/{}/{}", s.name(), idx, i));
+        for _ in 0..byte_cuts {
+            cuts.push(gc.below(flat.len() + 1));
+        }
+        cuts.sort();
+        cuts.dedup();
+        let ncuts = cuts.len();
+        for (kk, cut) in cuts.iter().enumerate() {
+            let k = kk;
+            let prefix: Vec<u8> = flat[..*cut].to_vec();
             let mut wk = w.clone();
             set_tape(&mut wk.ops[i], Tape::Scripted(format!("{label}/alt"), Hex(prefix)));
             wk.ops.truncate(i + 1); // only this op's own outputs are examined
-            wk.note = format!("c17 op {i} ({}) tape = first {k} of {} draws then fresh", op.name(), draws.len());
+            wk.note = format!("c17 op {i} ({}) tape = first {cut} of {} bytes ({} draws) then fresh", op.name(), flat.len(), draws.len());
             let rk = run_world(&wk);
             out.evals += 1;
             out.steps += rk.events.len() as u64;
@@ -186,7 +202,7 @@ pub fn examine(seed: u64, idx: u64, s: &dyn SuiteOps) -> Verdicts {
                 out.v.push((Violation { clause: "random_value_repeats", op: i, detail: format!("{} does not depend on the tape: unchanged on a completely fresh tape: {}", mine[j].0, hex::encode(&mine[j].1)) }, wk.clone()));
                 break;
             }
-            if k == draws.len() && eq.iter().any(|x| !*x) {
+            if k + 1 == ncuts && eq.iter().any(|x| !*x) {
                 let j = eq.iter().position(|x| !*x).unwrap();
                 out.v.push((Violation { clause: "nondeterministic", op: i, detail: format!("{} differs although the whole tape was replayed: hidden entropy", mine[j].0) }, wk.clone()));
                 break;
@@ -194,7 +210,7 @@ pub fn examine(seed: u64, idx: u64, s: &dyn SuiteOps) -> Verdicts {
             if let Some(p) = &prev_equal {
                 if p.iter().zip(eq.iter()).any(|(a, b)| *a && !*b) {
                     let j = p.iter().zip(eq.iter()).position(|(a, b)| *a && !*b).unwrap();
-                    out.v.push((Violation { clause: "tape_prefix_violation", op: i, detail: format!("{} was fixed by the first {} draws but changes when draw {} is replayed too", mine[j].0, k - 1, k) }, wk.clone()));
+                    out.v.push((Violation { clause: "tape_prefix_violation", op: i, detail: format!("{} was reproduced with a shorter replayed prefix but changes when {} bytes are replayed", mine[j].0, cut) }, wk.clone()));
                     break;
                 }
                 if p == &eq {
@@ -266,12 +282,12 @@ pub fn examine(seed: u64, idx: u64, s: &dyn SuiteOps) -> Verdicts {
 pub fn judge_world(w: &World) -> Vec<Violation> {
     let s = crate::suite::suite_by_name(&w.suite).unwrap();
     let idx = if w.index >= 1_000_000 { w.index - 1_000_000 } else { w.index };
-    examine(w.seed, idx, s).v.into_iter().map(|x| x.0).collect()
+    examine(w.seed, idx, s, 12).v.into_iter().map(|x| x.0).collect()
 }
 
 pub fn run(ctx: &Ctx) -> Report {
     let mut rep = Report::new(
-        "per (suite, world index): a world with two setups (the second through new_with_key with the SAME static key on its own tape), registration, real login, two no-record logins; (i) run twice on equal tapes: identical logs; (ii) run on independent tapes: every role value (OPRF seed, server/fake secret key, blind, blinded element, envelope nonce, client nonce, client ephemeral key pair, masking nonce, server nonce, server ephemeral key, fake masked response) differs between runs and no two coincide within a run; (iii) for every randomised op and every draw boundary k: tape = first k recorded draws then fresh — nothing may stay fixed at k=0, everything must be reproduced at k=m, and the set of reproduced values grows monotonically; (iv) for no-record logins some single replaced draw must move the masked response and nothing else (the hidden fake masking key is drawn, not derived); (v) with a generator whose try_fill_bytes reports errors no op may succeed with different output. distinct = (suite, op, k, pattern of reproduced values)",
+        "per (suite, world index): a world with two setups (the second through new_with_key with the SAME static key on its own tape), registration, real login, two no-record logins; (i) run twice on equal tapes: identical logs; (ii) run on independent tapes: every role value (OPRF seed, server/fake secret key, blind, blinded element, envelope nonce, client nonce, client ephemeral key pair, masking nonce, server nonce, server ephemeral key, fake masked response) differs between runs and no two coincide within a run; (iii) for every randomised op, every draw boundary and seeded byte offsets inside draws: tape = first n recorded bytes then fresh — nothing may stay fixed at k=0, everything must be reproduced at k=m, and the set of reproduced values grows monotonically; (iv) for no-record logins some single replaced draw must move the masked response and nothing else (the hidden fake masking key is drawn, not derived); (v) with a generator whose try_fill_bytes reports errors no op may succeed with different output. distinct = (suite, op, k, pattern of reproduced values)",
     );
     let mut suites: Vec<&'static dyn SuiteOps> = SIM_SUITES.to_vec();
     suites.extend(ID_SUITES.iter().step_by(ctx.pick(5, 1)));
@@ -283,7 +299,8 @@ pub fn run(ctx: &Ctx) -> Report {
         }
     }
     let seed = ctx.seed;
-    let outs = par_map(jobs.len(), ctx.threads, |ji| examine(seed, jobs[ji].1, suites[jobs[ji].0]));
+    let byte_cuts = ctx.pick(3, 12);
+    let outs = par_map(jobs.len(), ctx.threads, |ji| examine(seed, jobs[ji].1, suites[jobs[ji].0], byte_cuts));
     for o in outs {
         rep.evaluations += o.evals;
         rep.worlds += o.evals;
